@@ -11,3 +11,17 @@ func lemmaChecksumVerifies(hrp string, data []byte) bool {
 	q := append(append([]byte{}, data...), c...)
 	return bech32VerifyChecksum(hrp, q)
 }
+
+// lemmaDecodeEncode: Decode(Encode(hrp, data)) returns hrp and data without error, for every
+// human-readable part of printable characters without upper-case letters, all 5-bit data symbols and a
+// total length of at most 90. The first two statements are ghost computations that name the symbol
+// sequence Encode emits (data followed by its checksum) and record that it is a code word.
+func lemmaDecodeEncode(hrp string, data []byte) (string, []byte, error) {
+	q := append(append([]byte{}, data...), bech32Checksum(hrp, data)...)
+	bech32VerifyChecksum(hrp, q)
+	s, err := Encode(hrp, data)
+	if err != nil {
+		return "", nil, err
+	}
+	return Decode(s)
+}
